@@ -1,7 +1,7 @@
 #!/bin/sh
 # usage: tools_seed_check.sh <seed dir with patch.diff> <property id> [tier]
 # applies the seeded change to /repo, runs the property's check, and ALWAYS reverts /repo afterwards
-SEED="$1"; PROP="$2"; TIER="${3:-quick}"
+SEED="$(realpath "$1")"; PROP="$2"; TIER="${3:-quick}"
 cd /verif || exit 2
 git -C /repo diff --quiet || { echo "/repo has local modifications - refusing"; exit 2; }
 git -C /repo apply "$SEED/patch.diff" || { echo "patch does not apply"; exit 2; }
